@@ -336,9 +336,15 @@ pub const UDP_CLOSE: u8 = 3;
 pub const UDP_SEND: u8 = 4;
 pub const UDP_RECV: u8 = 5;
 
+/// set when the real-time watchdog of some world in this process ended its run (read and cleared by framework::run_guarded)
+pub static WATCHDOG_FIRED: std::sync::atomic::AtomicBool = std::sync::atomic::AtomicBool::new(false);
+
 pub struct World {
     /// unique per World instance in this OS process (see BATON)
     pub generation: u64,
+    /// real time at which this world was created, and the real-time budget of the run (watchdog, see `park`)
+    pub t0_real_ns: u64,
+    pub wall_budget_ns: u64,
     /// SO_REUSEPORT emulation (cluster tier): a second bind of a stream address succeeds on its own socket with its own
     /// accept queue, and every incoming connection goes to ONE live member of the group, chosen by the run's PRNG (the
     /// kernel hashes the 4-tuple). Off for the single-worker engines, where a duplicate bind is EADDRINUSE.
@@ -439,6 +445,8 @@ impl World {
         let n = RUNCTR.fetch_add(1, std::sync::atomic::Ordering::SeqCst);
         Box::new(World {
             generation: WORLD_GEN.fetch_add(1, std::sync::atomic::Ordering::SeqCst),
+            t0_real_ns: sys::real_clock_ns(),
+            wall_budget_ns: std::env::var("SIMK_WALL_BUDGET_S").ok().and_then(|v| v.parse::<u64>().ok()).unwrap_or(60) * SEC,
             reuseport: false,
             reuse_members: BTreeMap::new(),
             net_rng: Prng::derive(seed, "net/reuseport"),
@@ -745,6 +753,10 @@ impl World {
         self.stats.epoll_waits += 1;
         self.now += self.cfg.iter_cost_ns;
         if self.iterations > self.cfg.max_iterations { self.abort("max_iterations"); }
+        // real-time watchdog: a run in which the code under test burns CPU without the virtual clock getting anywhere
+        // (sozu polling with a zero timeout and looping to its iteration guard on every pass) would otherwise take
+        // minutes; it is ended here and the framework files it as inconclusive (framework::run_guarded)
+        if self.iterations % 512 == 0 && self.aborted.is_none() && sys::real_clock_ns().saturating_sub(self.t0_real_ns) > self.wall_budget_ns { WATCHDOG_FIRED.store(true, std::sync::atomic::Ordering::SeqCst); self.abort("wall_clock"); }
         if self.now > self.cfg.max_virtual_ns + 1000 * SEC { self.abort("max_virtual_time"); }
         let deadline = if timeout_ms < 0 { u64::MAX } else { self.now + timeout_ms as u64 * MS };
         while self.procs.len() <= me { self.procs.push(ProcSlot::default()); }
